@@ -880,7 +880,21 @@ func (r *run) rotate(op map[string]any, ln *Line) {
 	w := r.w
 	r.setOrder(strs(op, "order"))
 	// iid: the inner signed bundle carries an id field that is not the key id of its certificate key
-	inner, err := w.BuildFetch(world.FetchSpec{K: s(op, "k2"), E: s(op, "e2"), Nonce: s(op, "n2"), PrevK: s(op, "k"), WrongId: b(op, "iid")})
+	// win: the inner request's validity window: ok | exp2m (ended two minutes ago) | fut2m (starts in two minutes), while
+	// the server is configured with clock skews of 30 s (well inside the library's default of five minutes)
+	fsp := world.FetchSpec{K: s(op, "k2"), E: s(op, "e2"), Nonce: s(op, "n2"), PrevK: s(op, "k"), WrongId: b(op, "iid")}
+	win := s(op, "win")
+	if win == world.None {
+		win = "ok"
+	}
+	op["win"] = win
+	switch win {
+	case "exp2m":
+		fsp.NotBefore, fsp.NotAfter = time.Now().Add(-time.Hour), time.Now().Add(-2*time.Minute)
+	case "fut2m":
+		fsp.NotBefore, fsp.NotAfter = time.Now().Add(2*time.Minute), time.Now().Add(time.Hour)
+	}
+	inner, err := w.BuildFetch(fsp)
 	if err != nil {
 		panic(err)
 	}
@@ -913,6 +927,9 @@ func (r *run) rotate(op map[string]any, ln *Line) {
 	var rotOpts []nodeenrollment.Option
 	if os := s(op, "ostate"); os != world.None {
 		rotOpts = append(rotOpts, nodeenrollment.WithState(w.States[os]))
+	}
+	if win != "ok" {
+		rotOpts = append(rotOpts, nodeenrollment.WithNotBeforeClockSkew(-30*time.Second), nodeenrollment.WithNotAfterClockSkew(30*time.Second))
 	}
 	lf, _ := op["lf"].(bool)
 	op["lf"] = lf
